@@ -156,7 +156,7 @@ func init() {
 			{Name: "sm", Pkg: "c07", Run: "^(TestC07StateMachine|TestC07Regressions)$", QuickChecks: 6000, ThoroughChecks: 60000, ThoroughShards: 16, CaseFile: true, Inject: c07Overlay},
 			{Name: "net", Pkg: "c07", Run: "^TestC07StopWithRemoting$", Env: map[string]string{"VERIF_FAILFAST": "1"}, QuickChecks: 30, ThoroughChecks: 150, CaseFile: true, CrashOracle: "no-crash", Inject: c07Overlay, QuickTimeout: 15 * time.Minute, ThoroughTimeout: 60 * time.Minute},
 			{Name: "tree", Pkg: "c07", Run: "^TestC07StopAnyTree$", QuickChecks: 6000, QuickShards: 4, ThoroughChecks: 80000, ThoroughShards: 16, CaseFile: true, CrashOracle: "no-crash", Inject: c07Overlay},
-			{Name: "spawnstop", Pkg: "c07", Run: "^TestC07SpawnVsStop$", QuickChecks: 3000, ThoroughChecks: 30000, ThoroughShards: 8, CaseFile: true, CrashOracle: "no-crash", Inject: c07Overlay,
+			{Name: "spawnstop", Pkg: "c07", Run: "^TestC07SpawnVsStop$", QuickChecks: 3000, ThoroughChecks: 10000, ThoroughShards: 8, CaseFile: true, CrashOracle: "no-crash", Inject: c07Overlay,
 				Windows: map[string][]string{"internal/actor/context.go": {"ActorOf"}}},
 		},
 	}
